@@ -530,7 +530,8 @@ func (x *Exec) applyContract(st *State, fr *Frame, ct *Contract, fn *ssa.Functio
 	// clock: a contracted callee may read the clock
 	for _, en := range ct.Ensures {
 		if !en.forProp(x.Prop) {
-			continue
+			// proved by the check of the property it is tagged with; used here as a lemma
+			x.note(x.Assumed, "callee clause proved under another property's check: "+ct.Key+"#ensures."+clauseLabel(en)+" ["+strings.Join(en.Props, ",")+"]")
 		}
 		g := x.evalExprBool(st, old, nil, en.E, env)
 		st.assume(g)
@@ -663,10 +664,7 @@ func (x *Exec) checkReturn(st *State, fr *Frame, res []Val) {
 			ante := x.evalExprBool(st, x.Old, fr, b.L, env)
 			key := x.TopKey + "#cover.ensures." + clauseLabel(en)
 			likely := true
-			if ev, ok := env["err"]; ok && !isLit(ev.T, "0") {
-				if id, ok := b.L.(EBin); ok {
-					_ = id
-				}
+			if ev, ok := env["err"]; ok && !isLit(ev.T, "0") && st.Known.has(Neq(ev.T, IntT(0)).S) {
 				likely = !exprMentionsErrNil(b.L)
 			}
 			limit := 5
